@@ -194,12 +194,15 @@ def h_validation(g, which):
 
 
 MZ_END2END_IN_THOROUGH = False
+# dense 3x3 input (three embedded U(2) factors, 12 angles) through `rectangular`: every goal goes to the 10-minute portfolio
+# and most come back unknown -> outside the claim
+DENSE_3X3_IN_THOROUGH = False
 
 
 def build(ctx):
     ctx.outside += ["takagi (complex branch: svd, sqrtm), williamson (sqrtm, schur), bloch_messiah (polar, svd): LAPACK kernels are not encodable",
                     "end-to-end reconstruction for rectangular_MZ / rectangular_symmetric (solver does not decide the 2x2 instance reliably); "
-                    "sizes above 2x2 end-to-end (3x3 for `rectangular` in the thorough tier only)",
+                    "dense unitaries above 2x2 end-to-end (3x3 through `rectangular` was tried: 10-minute portfolio queries, mostly unknown)",
                     "sun_compact / _su3_parameters, graph embeddings",
                     "3x3 inputs other than phased permutations (all meshes) and U(2)+phase block unitaries (rectangular, triangular)"]
     fns = ["decompositions.T", "decompositions.Ti", "decompositions.nullT", "decompositions.nullTi", "decompositions.mach_zehnder",
@@ -228,7 +231,7 @@ def build(ctx):
             continue
         ctx.add("end2end.%s.n2" % which, h_end2end, {"which": which, "n": 2}, modules=mods, functions=fns,
                 bounds={"size": 2, "unitary": "all of U(2), explicitly parametrised by four angles"})
-        if ctx.thorough and which == "rectangular":
+        if ctx.thorough and which == "rectangular" and DENSE_3X3_IN_THOROUGH:
             ctx.add("end2end.%s.n3" % which, h_end2end, {"which": which, "n": 3}, modules=mods, functions=fns,
                     bounds={"size": 3, "unitary": "product of three embedded U(2) factors (12 angles)"}, max_paths=400)
         ctx.add("validation.%s" % which, h_validation, {"which": which}, modules=mods, functions=fns,
